@@ -42,7 +42,15 @@ def replay_history(binary, h, hid, drv, bases, kill=False, inject=None):
     d = os.path.join(root, "d").encode(); src = os.path.join(root, "src").encode()
     os.makedirs(d)
     contents = fsmat.Contents()
-    for name, c in h["init"]:
+    for item in h["init"]:
+        name, c = item[0], item[1]
+        if len(item) > 2 and item[2] == "link":
+            # the entry is a symbolic link to a file of the same content in a sibling directory
+            other = os.path.join(root, "other").encode(); os.makedirs(other, exist_ok=True)
+            with open(os.path.join(other, conc(name, bases)), "wb") as f:
+                f.write(contents.get(c))
+            os.symlink(b"../other/" + conc(name, bases), os.path.join(d, conc(name, bases)))
+            continue
         with open(os.path.join(d, conc(name, bases)), "wb") as f:
             f.write(contents.get(c))
     recs = []
@@ -118,6 +126,8 @@ def run(ctx):
         {"init": [[["a"], "S0"], [["a", 9], "S9"]], "steps": [{"name": ["a"], "mode": "auto", "v": "V1"}, {"name": ["a"], "mode": "auto", "v": "V2"}, {"name": ["a"], "mode": "numbered", "v": "V3"}]},
         {"init": [[["a"], "S0"], [["ab", 1], "T1"], [["ab"], "T0"]], "steps": [{"name": ["a"], "mode": "auto", "v": "V1"}, {"name": ["ab"], "mode": "auto", "v": "V2"}]},
         {"init": [[["a"], "S0"]], "steps": [{"name": ["a"], "mode": "numbered", "v": "V%d" % i} for i in range(1, 13)]},
+        {"init": [[["a"], "S0", "link"], [["a", 1], "S1"]], "steps": [{"name": ["a"], "mode": "numbered", "v": "V1"}]},
+        {"init": [[["a"], "S0", "link"], [["a", 1], "S1"], [["a", 3], "S3"]], "steps": [{"name": ["a"], "mode": "auto", "v": "V1"}, {"name": ["a"], "mode": "auto", "v": "V2"}]},
         {"init": [[["a"], "S0"]], "steps": [{"name": ["a"], "mode": ["none", "numbered", "numbered", "auto", "numbered"][i % 5], "v": "V%d" % (i + 1)} for i in range(5)]},
     ]
     jobs = []
